@@ -33,10 +33,23 @@ type conn struct {
 	writer   *bufio.Writer
 	writerMu sync.Mutex // shared lock across all ResponseWriter's to prevent write data races
 
+	// rawConn is the accepted conn.  Unlike netConn it is never replaced (by a
+	// StartTLS upgrade), so the server can expire its deadlines at any time
+	// without taking the conn's lock.
+	rawConn net.Conn
+
 	// recoverPanics is set by the server (unless WithDisablePanicRecovery was
 	// given): a panic in a request handler is then caught and logged instead
 	// of crashing the process
 	recoverPanics bool
+}
+
+// interrupt expires the deadlines of the accepted conn, which unblocks any
+// pending (and fails any later) read, write or TLS handshake on it.
+func (c *conn) interrupt() {
+	if c.rawConn != nil {
+		_ = c.rawConn.SetDeadline(time.Now())
+	}
 }
 
 // newConn will create a new Conn from an accepted net.Conn which will be used
